@@ -4,7 +4,9 @@
  * record (see extract/layout_main.ml for the grammar):
  *   hist <id> <api 0=SD 1=GR> <rank> <d0..> <nt> <hasfill> <fill>
  *        hasfill: bit 0 = set the fill value; bits 1-2 = number of other attributes set BEFORE it, bits 3-4 = number set
- *        after it (before the layout-selection call): the dataset's other metadata must not matter
+ *        after it (before the layout-selection call): the dataset's other metadata must not matter;
+ *        bit 5 = SDsetfillmode(SD_NOFILL) for the whole session(s); bit 6 = the layout is selected in a LATER session
+ *        than the one that created the dataset (SDend + SDstart in between)
  *   cfg <kind> <cache> <coder> <p1> <p2> <p3> <p4> <c0..>
  *     kind 0 contiguous | 1 chunked | 2 compressed | 3 chunked+compressed | 4 n-bit | 5 external file (p1 = offset)
  *          6 unlimited first dimension forced into linked blocks (p1 = SDsetblocksize) | 7 chunked+n-bit
@@ -24,7 +26,7 @@
 #include "hfile_priv.h"
 
 #define MAXR 8
-static long rank, dims[MAXR], nt, hasfill, fillv, api, npre, npost;
+static long rank, dims[MAXR], nt, hasfill, fillv, api, npre, npost, nofill, latelayout;
 static long kind, cache0, coder, p1, p2, p3, p4, cl[MAXR];
 static char fname[1024], ename[1024];
 static int32 sd = FAIL, sds = FAIL, dummy = FAIL, fid = FAIL, gr = FAIL, ri = FAIL;
@@ -172,6 +174,15 @@ static void sd_open_new(void)
         if (SDsetfillvalue(sds, fv) == FAIL) { dead = 1; printf("X SDsetfillvalue failed\n"); return; }
     }
     if (other_attrs(3, npost) == FAIL) return;
+    if (nofill && SDsetfillmode(sd, SD_NOFILL) == FAIL) { dead = 1; printf("X SDsetfillmode failed\n"); return; }
+    if (latelayout && kind != 6) {
+        /* the dataset is created in one session, its layout selected in the next */
+        if (SDendaccess(sds) == FAIL || SDend(sd) == FAIL) { dead = 1; printf("X closing the creating session failed\n"); return; }
+        sd  = SDstart(fname, DFACC_RDWR);
+        sds = sd == FAIL ? FAIL : SDselect(sd, SDnametoindex(sd, "data"));
+        if (sd == FAIL || sds == FAIL) { dead = 1; printf("X reopening for the layout call failed\n"); return; }
+        if (nofill && SDsetfillmode(sd, SD_NOFILL) == FAIL) { dead = 1; printf("X SDsetfillmode failed\n"); return; }
+    }
     if (chunked()) {
         HDF_CHUNK_DEF cd;
         int32         flags = HDF_CHUNK;
@@ -239,6 +250,7 @@ static void sd_reopen(void)
     sd  = SDstart(fname, DFACC_RDWR);
     sds = sd == FAIL ? FAIL : SDselect(sd, SDnametoindex(sd, "data"));
     if (sd == FAIL || sds == FAIL) ok = 0;
+    if (ok && nofill && SDsetfillmode(sd, SD_NOFILL) == FAIL) ok = 0;
     printf("reopen %s\n", ok ? "ok" : "fail");
     if (!ok) dead = 1;
 }
@@ -429,7 +441,8 @@ int main(int argc, char **argv)
             if (rank < 1 || rank > MAXR) return 2;
             for (i = 0; i < rank; i++) dims[i] = rd(f);
             nt = rd(f); hasfill = rd(f); fillv = rd(f);
-            npre = (hasfill >> 1) & 3; npost = (hasfill >> 3) & 3; hasfill &= 1;
+            npre = (hasfill >> 1) & 3; npost = (hasfill >> 3) & 3;
+            nofill = (hasfill >> 5) & 1; latelayout = (hasfill >> 6) & 1; hasfill &= 1;
             dead = 0;
             alarm(30); /* a record that does not finish in 30 s is a hang: SIGALRM ends the run at this record */
             printf("H %s\n", id);
@@ -578,6 +591,7 @@ int main(int argc, char **argv)
                 sd  = SDstart(fname, DFACC_RDWR);
                 sds = sd == FAIL ? FAIL : SDselect(sd, SDnametoindex(sd, "data"));
                 if (sd == FAIL || sds == FAIL) { dead = 1; printf("X reopen after hr failed\n"); }
+                else if (nofill) SDsetfillmode(sd, SD_NOFILL);
             }
             else {
                 fid = Hopen(fname, DFACC_RDWR, 0);
